@@ -83,12 +83,14 @@ Definition c_spacing (o : op) (m : mlink) (q : lobs) : bool :=
   end.
 
 (** clause 3: retries never stop — a dead link whose last attempt is >= 120 s old (and
-    whose startup grace has run out) is retried by the very next tick *)
-Definition c_forever (o : op) (m : mlink) (q : lobs) : bool :=
+    whose startup grace has run out) is retried by the very next tick.  [probing]: the
+    start-up RTT probing was still in progress before this tick (it may re-arm the
+    startup grace of the link it selects; that is not back-off and is not judged here) *)
+Definition c_forever (o : op) (probing : bool) (m : mlink) (q : lobs) : bool :=
   let p := m_prev m in
   match o with
   | OTick now _ _ _ =>
-    if negb (b_conn p) && (b_lr p =? -1) && negb (b_last p =? 0) && (T_BACKOFF_CAP <=? now - b_last p)
+    if negb probing && negb (b_conn p) && (b_lr p =? -1) && negb (b_last p =? 0) && (T_BACKOFF_CAP <=? now - b_last p)
        && (b_grace p <? now)
     then b_last q =? now else true
   | _ => true
@@ -137,13 +139,13 @@ Definition c_bound (o : op) (rep : option Z) (envok : bool) (q : lobs) : bool :=
   | _, _ => true
   end.
 
-Definition mon_link (o : op) (cfg : Z) (i : nat) (m : mlink) (q : lobs) (w : list Z) : N * mlink :=
+Definition mon_link (o : op) (cfg : Z) (probing : bool) (i : nat) (m : mlink) (q : lobs) (w : list Z) : N * mlink :=
   let p := m_prev m in
   let '(rep, envok, await, due) := env_step o i m q w in
   let code : N :=
     if negb (c_teardown o i m q cfg) then 1%N
     else if negb (c_spacing o m q) then 2%N
-    else if negb (c_forever o m q) then 3%N
+    else if negb (c_forever o probing m q) then 3%N
     else if negb (c_rejoin o i q) then 5%N
     else if negb (c_rejoin_window o i m q) then 6%N
     else if negb (c_bound o rep envok q) then 7%N
